@@ -51,7 +51,7 @@ def strategy_value(hostile: bool = True, max_ticks: int = 128):
 
         opts += [st.sampled_from([NAN, INF, -INF, -1.0, -0.015625, 1e9, 1e300]), st.integers(0, 3)]
         # other numeric types a strategy may compute with (exact on the 1/64 s grid)
-        opts += [st.sampled_from([Decimal("0.5"), Decimal("0.015625"), Decimal("2"), Fraction(1, 64), Fraction(3, 2), True])]
+        opts += [st.sampled_from([Decimal("0.5"), Decimal("0.015625"), Decimal("2"), Fraction(1, 64), Fraction(3, 2), True, 10**400, -(10**400)])]
     return st.one_of(*opts)
 
 
